@@ -17,7 +17,7 @@ def nontrivial(s, run):
 def run(ctx):
     srvflow.run_check(
         ctx, design=DESIGN, edge_cfgs=EDGES, negs=NEGS, invariants=INV, corpus=["server_core.ndjson", "server_cmd.ndjson", "server_cmd_sat.ndjson"],
-        thorough_design=THOROUGH, nontrivial=nontrivial,
+        thorough_design=THOROUGH, nontrivial=nontrivial, random_flavour=('core', 'ready'), random_quick=240,
         rule="schedules = edge cover of the core AcceptDispatch configs + NEG counterexample + corpus (limits 1..4, workers "
              "1..3); at every recorded state queued+in-progress per worker (measured channel length + live service futures) "
              "is compared with the limit by TLC; non-trivial = some worker reaches its limit during the run")
